@@ -17,6 +17,10 @@
 //   R10 (same files) time.NewTimer / time.NewTicker / time.Sleep -> vNewTimer / vNewTicker / vSleep (harness-controlled)
 //   R11 (same files) vYield("sel:<recv>.<fn>#k") before every select of checkHotRestart / background; also Stream.readMore
 //   R12 (session_manager.go) newClientSession(..) -> vNewClientSession(..) (hook; the real function when no hook is set)
+//   R13 (session.go, newSession) after the statement `if err := s.eventConn.setCallback(s); ...` : vRegistered(s)
+//       (a crash-point hook: the connection may break between the registration with the event loop and newSession's return)
+//   R14 (stream.go, Flush) `retryTimer := time.NewTimer(..)` is preceded by vRetryGate()
+//       (the harness decides when a Flush that found the queue full retries: after the peer drained the queue)
 //   R6  in Session.wakeUpPeer / Session.hotRestart / Session.send: s.writeEventData(..) is preceded by
 //       vYield("writeEvent")
 // With no scheduler installed every v* helper is a pass-through.
@@ -181,6 +185,13 @@ func main() {
 					}
 				case *ast.BlockStmt:
 					for _, st := range x.List {
+						if is, ok := st.(*ast.IfStmt); ok && name == "session.go" && fn == "newSession" && is.Init != nil &&
+							strings.Contains(text(is.Init), "setCallback(") {
+							edits = append(edits, edit{off(st.End()), off(st.End()), "; vRegistered(s)"}) // R13
+						}
+						if as, ok := st.(*ast.AssignStmt); ok && name == "stream.go" && fn == "Flush" && strings.HasPrefix(text(as), "retryTimer := time.NewTimer(") {
+							edits = append(edits, edit{off(st.Pos()), off(st.Pos()), "vRetryGate(); "}) // R14
+						}
 						if isQ {
 							if _, isIf := st.(*ast.IfStmt); !isIf && strings.Contains(text(st), "queueBytesOnMemory") {
 								edits = append(edits, edit{off(st.Pos()), off(st.Pos()), "vYield(" + quote("slot:"+norm(text(st))) + "); "}) // R3
